@@ -50,7 +50,8 @@ EXPECTED_PROBES = ["cls_Dataset", "cls_Dataset2d", "cls_Dataset3d", "cls_Dataset
                    "ndim_changed_by_getitem", "getitem_list", "getitem_ellipsis", "getitem_negative_step",
                    "getitem_partial", "length1_axis", "rejected_setter", "rejected_shape_arg",
                    "inplace_vs_copy_compared", "pairs_steered", "complex_dtype", "int_dtype",
-                   "axis_ge_16", "getitem_numpy_int_slice_step", "bin_factor_equals_axis_length", "layout_F", "layout_strided", "layout_readonly", "layout_negstride"]
+                   "axis_ge_16", "getitem_numpy_int_slice_step", "bin_factor_equals_axis_length",
+                   "pad_width_larger_than_axis", "pad_mode_other", "layout_F", "layout_strided", "layout_readonly", "layout_negstride"]
 
 _D = {}
 _registry0 = None
@@ -131,7 +132,9 @@ def _gen_op(r, k):
                 "fill": r.randrange(10 ** 6), "lower_ndim": r.chance(0.1)}
     if k == "pad":
         return {"op": k, "form": r.pick(["int", "pair", "pairs", "output_shape"]), "w": a(10),
-                "mode": r.pick(["constant", "constant", "edge"]), "rebind": r.pick(["copy", "inplace"])}
+                "mode": r.pick(["constant", "constant", "edge"]) if r.chance(0.8) else
+                r.fork("mode").pick(["reflect", "wrap", "symmetric", "maximum", "linear_ramp"]),
+                "wide": r.fork("wide").chance(0.1), "rebind": r.pick(["copy", "inplace"])}
     if k == "crop":
         return {"op": k, "axes": r.pick(["none", "int", "tuple"]), "ax": a(), "w": a(10),
                 "stop_form": a(), "rebind": r.pick(["copy", "inplace"])}
@@ -570,6 +573,11 @@ def run(plan):
                 n_mut[0] += 1
             elif k == "pad":
                 w = [x % 3 for x in op["w"]]
+                if op.get("wide") and nd <= 3 and int(np.prod(shape)) <= 4096:
+                    w = [x % 12 for x in op["w"]]      # pad widths larger than the axis itself
+                    bump(probes, "pad_width_larger_than_axis")
+                if op["mode"] not in ("constant", "edge"):
+                    bump(probes, "pad_mode_other")
                 form = op["form"]
                 if form == "int":
                     kw = {"pad_width": w[0]}
